@@ -16,6 +16,15 @@ PagesTwo8 == {<<2048, {0}>>, <<2049, {4660}>>}
 PagesOne8 == {<<2048, {4660}>>}
 
 HdrAll == {"page", "s12", "s34", "ctrl"}
+\* a parity error in the header text bytes of these columns (8..31: the text a decoder compares to detect a channel switch, 9..11 the
+\* page number in it; 32..39: the clock)
+Htxt(cs) == [f |-> "htxt", cols |-> cs]
+HtxtAll == {Htxt({8}), Htxt({10}), Htxt({20}), Htxt({31}), Htxt({36}), Htxt({14, 15})}
+HtxtFew == {Htxt({13}), Htxt({20, 35})}
+HtxtSim == {Htxt({12}), Htxt({17}), Htxt({30}), Htxt({38})}
+\* rolling header pages (<= 0x199) of one magazine: two and more are stored before the damaged header arrives
+PagesH1 == {<<256, {0}>>, <<257, {0}>>, <<258, {1, 2}>>}
+PagesH8 == {<<256, {0}>>, <<257, {0}>>, <<2048, {0}>>}
 Par(k, adj) == [f |-> "par", k |-> k, adj |-> adj]
 RowAll == {[f |-> "mrag"], Par(1, FALSE), Par(2, FALSE), Par(2, TRUE), Par(3, FALSE), Par(3, TRUE), Par(40, TRUE)}
 RowPar == RowAll \ {[f |-> "mrag"]}
